@@ -182,6 +182,10 @@ package cafs
 // the writer's convention (known finding K1 on the original code: no verification on this path)
 //@ func (*chunkReader).WriteTo
 //@   requires r != nil && r.truncation <= r.leafSize
+// positions are computed without wrap-around for every object of fewer than 2^31 leaves (each arithmetic
+// instruction of this function carries an overflow obligation)
+//@   requires len(r.keys) < 2147483648
+//@   nooverflow
 //@   loop 1 invariant [same-reader] r#1 == r
 //@   call WriteTo$1#1 assert [leaf] $index == rangeindex#1
 //@   call WriteTo$1#1 assert [position] $writeAt == rangeindex#1 * (r.leafSize - r.truncation)
